@@ -207,8 +207,8 @@ def rule_preamble(facts):
 
 def rule_lzma2_end(facts):
     r = report.RuleResult("C11.R4", "after the LZMA2 end byte nothing consumes input")
-    b = pat.body_of(facts, "Lzma2Decoder::decompress")
-    r.need("Lzma2Decoder::decompress", b is not None)
+    b = pat.chunk_loop_body(facts)
+    r.need("the LZMA2 chunk loop", b is not None)
     if b is None:
         return r
     gs, tm = pat.guards(b)
@@ -241,9 +241,49 @@ def rule_lzma2_end(facts):
     return r
 
 
+def rule_entries(facts):
+    """The embedded formats (.lzma payload with a known size or an end marker, raw LZMA2) end where the decoder stops:
+    the public one-shot entry points hand the reader to the header parser / the decoder and touch it nowhere else - in
+    particular they do not test for trailing data (only the XZ decoder, a whole-file format, does)."""
+    r = report.RuleResult("C11.R6", "the one-shot LZMA / LZMA2 entry points use the reader only through the header parser and the decoder")
+    n = 0
+    allowed = ("LzmaParams::read_header", "LzmaDecoder::decompress", "Lzma2Decoder::decompress", "LzmaDecoder::new", "Lzma2Decoder::new",
+               "decode::xz::decode_stream")
+    for b in facts.bodies:
+        if b.promoted is not None or b.vis != "public" and "pub" not in str(b.vis):
+            pass
+        fn = short(b.name)
+        if fn not in ("lzma_decompress", "lzma_decompress_with_options", "lzma2_decompress") and \
+                not fn.endswith(("LzmaDecoder::decompress", "Lzma2Decoder::decompress")):
+            continue
+        n += 1
+        tm = Terms(b)
+        for blk in b.calls():
+            nm = flow.callee(blk.term) or ""
+            d_ = flow.declared(blk.term) or ""
+            uses = any(a.ty.k == "ref" and pat.has_arg(tm.of_operand(a), "input") for a in blk.term.args)
+            if not uses:
+                continue
+            if fn.endswith("::decompress"):
+                # inside the raw decoders the reader goes to the range decoder / the chunk parsers only
+                if nm.endswith(("RangeDecoder::new", "parse_lzma", "parse_uncompressed", "decompress_chunks")) or \
+                        (blk.term.callee is not None and blk.term.callee.target().local and not nm.endswith(("is_eof", "flush_zero_padding", "read_tag"))) or \
+                        d_.endswith("read_u8"):
+                    continue
+            elif nm.endswith(allowed) or nm.endswith(("lzma_decompress_with_options",)):
+                continue
+            r.bad("%s|reader-use:%s" % (fn.split("::")[-1], (nm or d_).split("::")[-1]), "%s also hands its reader to %s: the bytes after the payload "
+                  "belong to the caller (an embedded stream must decode in place)" % (fn, nm or d_), pat.where(b, blk.idx))
+    r.sites = n
+    r.need("the one-shot LZMA / LZMA2 entry points (found %d)" % n, n >= 3)
+    if not r.findings:
+        r.ok("who-uses", {"reader": "header parser and decoder only"})
+    return r
+
+
 def run(ctx, t0):
     facts = ctx.facts()
-    rules = [rule_widths(ctx, facts), rule_stop(facts), rule_preamble(facts), rule_lzma2_end(facts)]
+    rules = [rule_widths(ctx, facts), rule_stop(facts), rule_preamble(facts), rule_lzma2_end(facts), rule_entries(facts)]
     from rules import C18
     r5 = C18.rule_trailing(facts)
     r5.rule = "C11.R5"
